@@ -198,10 +198,10 @@ impl Sim {
                     let mut transport = (0usize, None);
                     let resp = {
                         let mut s = st.lock().expect("state");
-                        transport = (s.frame, s.cut_body);
                         let req = Req { index: s.log.len(), method, raw_target: target.clone(), path: percent_decode(rawpath, false), query };
                         s.log.push(req.clone());
                         let scripted = { let mut h = hd.lock().expect("handler"); match h.as_mut() { Some(f) => f(&req, &mut s), None => None } };
+                        transport = (s.frame, s.cut_body);       // after the handler: a script may set the transport of this very response
                         match scripted {
                             Some(r) => r,
                             None => {
